@@ -256,7 +256,7 @@ Proof.
   set (bal := aget 0 (s_bal s) (t_from t)).
   set (nonce := aget None (s_nonce s) (t_from t)).
   set (why := admit_reason e bal nonce (s_bgas s) t).
-  destruct ((why =? 2) || (why =? 10)) eqn:Ew.
+  destruct (why =? 2) eqn:Ew.
   { simpl. split; [discriminate|]. split; [split; assumption|]. split; [intros _; repeat split; lia|intro H; discriminate]. }
   destruct (why =? 0) eqn:Ew0; simpl negb; cbv iota.
   2:{ simpl. split; [discriminate|]. split; [split; assumption|]. split; [intros _; repeat split; lia|intro H; discriminate]. }
@@ -350,9 +350,8 @@ Proof.
     destruct r as [w| | | |]; try discriminate. simpl.
     assert (Hwhy : (admit_reason e (aget 0 (s_bal s) (t_from t)) (aget None (s_nonce s) (t_from t)) (s_bgas s) t =? 0) = false).
     { unfold deliver in Ed.
-      destruct ((admit_reason e (aget 0 (s_bal s) (t_from t)) (aget None (s_nonce s) (t_from t)) (s_bgas s) t =? 2)
-                || (admit_reason e (aget 0 (s_bal s) (t_from t)) (aget None (s_nonce s) (t_from t)) (s_bgas s) t =? 10)) eqn:E1.
-      - apply orb_prop in E1. destruct E1 as [E1|E1]; apply Z.eqb_eq in E1; rewrite E1; reflexivity.
+      destruct (admit_reason e (aget 0 (s_bal s) (t_from t)) (aget None (s_nonce s) (t_from t)) (s_bgas s) t =? 2) eqn:E1.
+      - apply Z.eqb_eq in E1; rewrite E1; reflexivity.
       - destruct (admit_reason e (aget 0 (s_bal s) (t_from t)) (aget None (s_nonce s) (t_from t)) (s_bgas s) t =? 0) eqn:E0; [|reflexivity].
         simpl in Ed. exfalso.
         repeat match type of Ed with
@@ -556,18 +555,17 @@ Proof.
     + destruct (Hdiff E) as [D1 _]. rewrite D1. lia.
 Qed.
 
-(* a transaction refused by anything but validateBasic (2) or the recovered ante panic (10) leaves the block gas meter alone *)
+(* a transaction refused by anything but validateBasicTxMsgs (2) leaves the block gas meter alone *)
 Lemma rejected_block_gas e s t o why :
-  snd (deliver e s t o) = Rejected why -> why <> 2 -> why <> 10 ->
+  snd (deliver e s t o) = Rejected why -> why <> 2 ->
   s_bgas (fst (deliver e s t o)) = s_bgas s.
 Proof.
   unfold deliver.
   set (w := admit_reason e (aget 0 (s_bal s) (t_from t)) (aget None (s_nonce s) (t_from t)) (s_bgas s) t).
-  destruct ((w =? 2) || (w =? 10)) eqn:E1.
-  { simpl. intros H H2 H10. inversion H; subst why.
-    apply orb_prop in E1. destruct E1 as [E1|E1]; apply Z.eqb_eq in E1; congruence. }
+  destruct (w =? 2) eqn:E1.
+  { simpl. intros H H2. inversion H; subst why. apply Z.eqb_eq in E1; congruence. }
   destruct (w =? 0) eqn:E0; simpl negb; cbv iota; [|simpl; reflexivity].
-  intros H _ _. exfalso. revert H.
+  intros H _. exfalso. revert H.
   repeat match goal with
   | |- context [if ?c then _ else _] => destruct c
   end; simpl; discriminate.
